@@ -1,11 +1,14 @@
 #!/bin/bash
-# Builds the harness (which compiles /repo's library from its current working tree) and the CLI binary.
+# Builds the harness (which compiles the repository's library from its current working tree) and the CLI binary.
+# The repository is /repo; a snapshot of this tree (tools/seedtest.sh) sets VERIF_REPO to its own copy.
 set -e
 export CARGO_NET_OFFLINE=true
-mkdir -p /verif/target
-exec 9>/verif/target/.build.lock
+H="$(cd "$(dirname "$0")" && pwd)"
+REPO="${VERIF_REPO:-/repo}"
+mkdir -p "$H/target"
+exec 9>"$H/target/.build.lock"
 flock 9
-cd /verif/harness
-cargo build --release --offline 2>&1
-cd /repo
-cargo build --release --offline --features verif_hooks --target-dir /verif/target/cli --config 'profile.release.overflow-checks=true' 2>&1
+cd "$H/harness"
+cargo build --release --offline --target-dir "$H/target/harness" 2>&1
+cd "$REPO"
+cargo build --release --offline --features verif_hooks --target-dir "$H/target/cli" --config 'profile.release.overflow-checks=true' 2>&1
